@@ -58,7 +58,13 @@ func (rh ReceiptHandler) VerifyPayload(payload ncsclient.ReceiptPayload) error {
 		return errors.New("failed to verify receipt hash")
 	}
 
-	// verify that signature is actually signature of some kind, and not some junk data
+	// verify that signature is actually signature of some kind, and not some junk data.
+	// A recoverable signature is r || s || v with a recovery id v of 0 to 3: the
+	// pure Go implementation of Ecrecover, the one a build without cgo links,
+	// reads 4 to 7 as the same ids with a flag set and accepts them.
+	if len(payload.Signature) != crypto.SignatureLength || payload.Signature[crypto.RecoveryIDOffset] > 3 {
+		return errors.New("failed to verify signature: invalid length or recovery id")
+	}
 	_, err := crypto.Ecrecover(payload.Hash, payload.Signature)
 	if err != nil {
 		return errors.New("failed to verify signature").Wrap(err)
